@@ -4,6 +4,7 @@ import Litep2pVerif.Generated.Consts
 import Litep2pVerif.Proofs.Manager.Basic
 import Litep2pVerif.Proofs.Node.Wiring
 import Litep2pVerif.Proofs.Addr.Open
+import Litep2pVerif.Model.Noise.Identity
 /-!
 # C10 — Peer address book stays bounded, attributable and dialable
 
@@ -767,3 +768,58 @@ end Litep2pVerif.Props.C10.Wiring
 
 #print axioms Litep2pVerif.Props.C10.Wiring.transport_attempts_in_given_order
 #print axioms Litep2pVerif.Props.C10.Wiring.max_parallel_dials_reaches_transport
+
+/-! ## The address a successful dial is credited to (coverage round `tcp3`)
+
+`dial_result_rescores_used_address` is about the manager: it scores the address the TRANSPORT reports with
+`ConnectionEstablished` (`endpoint.address()`). For the TCP transport that address is rebuilt by
+`TcpConnection::negotiate_connection` from the `AddressType` the dialed multiaddress was parsed into — transport model
+`Model/Noise/Identity.lean` (`parseDialed`, `addressType`, `endpointHost`, `endpointAddress`, `scoredAddress`). -/
+namespace Litep2pVerif.Props.C10.Endpoint
+open Litep2pVerif.Id Litep2pVerif.Noise.Identity
+
+/-- **The endpoint address is the dialed address.** For every address the TCP transport accepts — every host kind
+(`/ip4`, `/ip6`, `/dns`, `/dns4`, `/dns6`), with or without `/p2p`, through `dial` and through `open` — the address
+reported with `ConnectionEstablished` for the dialer is the dialed multiaddress (its `/<host>/tcp/<port>` part: the
+endpoint address never carries the `/p2p` suffix). -/
+theorem endpoint_address_is_dialed_address (e : Entry) (a : DialedAddr) (h : Host) (p : Option PeerId)
+    (hp : parseDialed a = some (h, p)) : endpointAddress e a = some (a.take 2) := by
+  have hshape : a.take 2 = [.host h, .tcp] := by
+    unfold parseDialed at hp
+    split at hp
+    · simp only [Option.some.injEq, Prod.mk.injEq] at hp; simp [hp.1]
+    · simp only [Option.some.injEq, Prod.mk.injEq] at hp; simp [hp.1]
+    · simp at hp
+  rw [hshape]
+  cases e <;> cases h <;> simp [endpointAddress, dialPeerAddress, hp, addressType, endpointHost]
+
+example : endpointAddress .dial [.host .dns4, .tcp, .p2p ⟨⟨0, [1]⟩⟩] = some [.host .dns4, .tcp] := by decide
+example : endpointAddress .open [.host .dns6, .tcp] = some [.host .dns6, .tcp] := by decide
+
+/-- **A successful dial credits exactly the address that was dialed.** When `/<host>/tcp/<port>/p2p/<peer>` was dialed
+and the connection was established (so the remote proved to be `peer`: `transportCheck`), the record the manager
+scores with `CONNECTION_ESTABLISHED` is that very multiaddress — not a sibling with another host kind. -/
+theorem established_dial_scores_dialed_address (e : Entry) (h : Host) (peer proven q : PeerId)
+    (hc : transportCheck e [.host h, .tcp, .p2p peer] proven = .ok q) :
+    scoredAddress e [.host h, .tcp, .p2p peer] q = some [.host h, .tcp, .p2p peer] := by
+  have hexp : entryDialedPeer e [.host h, .tcp, .p2p peer] = some peer := by
+    cases e <;> simp [entryDialedPeer, dialPeerAddress, expectedPeer, parseDialed]
+  have hq : q = peer := by
+    rw [transportCheck, hexp] at hc
+    simp only [negotiateCheck] at hc
+    split at hc
+    · simp at hc
+    · rename_i hne
+      simp only [Except.ok.injEq] at hc
+      have : peer = proven := by simpa using hne
+      rw [this, hc]
+  subst hq
+  cases e <;> cases h <;> simp [scoredAddress, endpointAddress, dialPeerAddress, parseDialed, addressType, endpointHost]
+
+example : transportCheck .open [.host .dns4, .tcp, .p2p ⟨⟨0, [7]⟩⟩] ⟨⟨0, [7]⟩⟩ = .ok ⟨⟨0, [7]⟩⟩ ∧
+    scoredAddress .open [.host .dns4, .tcp, .p2p ⟨⟨0, [7]⟩⟩] ⟨⟨0, [7]⟩⟩ = some [.host .dns4, .tcp, .p2p ⟨⟨0, [7]⟩⟩] := by decide
+
+end Litep2pVerif.Props.C10.Endpoint
+
+#print axioms Litep2pVerif.Props.C10.Endpoint.endpoint_address_is_dialed_address
+#print axioms Litep2pVerif.Props.C10.Endpoint.established_dial_scores_dialed_address
